@@ -180,6 +180,7 @@ type Exec struct {
 	globalsInit map[string]bool
 	lastArgs    map[string]*Val
 	visitedBlocks map[*ssa.BasicBlock]bool
+	sinkArgs      []*Val
 	allocBase0  *Term
 	topMods     []modTarget
 	autoHeader  []autoMark
